@@ -80,3 +80,16 @@ pub fn memrchr_bytewise(x: u8, text: &[u8]) -> Option<usize> {
     while i > 0 { i -= 1; if text[i] == x { return Some(i); } }
     None
 }
+
+/// `core::str::from_utf8` for harnesses whose strings are ASCII by construction (C13 path components): the real
+/// validator's word-at-a-time fast path depends on the pointer's alignment, which CBMC does not know, so both paths
+/// are explored at every call (a concrete 12-row harness did not finish in 10 min). ASCII is ASSUMED here — a
+/// non-ASCII byte cuts the path, and the harness's reachability witness guards against the assumption being vacuous.
+pub fn from_utf8_ascii(v: &[u8]) -> Result<&str, core::str::Utf8Error> {
+    let mut i = 0;
+    while i < v.len() {
+        crate::kx::assume(v[i] < 128);
+        i += 1;
+    }
+    Ok(unsafe { core::str::from_utf8_unchecked(v) })
+}
